@@ -143,9 +143,8 @@ SeqOfSet(S) == IF S = {} THEN <<>>
 \* validators of b: the keys in S; shared keys keep their trusted power, strangers have power 1
 Vb(S, m, pw) == LET ks == SeqOfSet(S) IN [i \in 1..Len(ks) |-> Val(ks[i], IF ks[i] <= m THEN pw[ks[i]] ELSE 1)]
 
-PairCase(fam, m, pw, S, kinds, dh, chainb, tc, parentOk, nvalsOk) ==
+PairCaseV(fam, m, pw, vb, kinds, dh, chainb, tc, parentOk, nvalsOk) ==
     LET va == [i \in 1..m |-> Val(i, pw[i])]
-        vb == Vb(S, m, pw)
         \* a's next validators: b's set, or a different one
         nva == IF nvalsOk THEN vb ELSE IF vb # va THEN va ELSE Append(va, Val(Fresh, 1))
         a == Hd(<<"a", 0, HA>>, 1, HA, 0, va, nva, Unknown, AllOk(va))
@@ -158,7 +157,23 @@ PairCase(fam, m, pw, S, kinds, dh, chainb, tc, parentOk, nvalsOk) ==
         v_verify |-> VerifyVerdict(a, b), v_adj |-> VerifyAdjVerdict(a, b),
         alg_verify |-> AlgVerify(a, b), alg_adj |-> AlgVerifyAdj(a, b)]
 
+PairCase(fam, m, pw, S, kinds, dh, chainb, tc, parentOk, nvalsOk) ==
+    PairCaseV(fam, m, pw, Vb(S, m, pw), kinds, dh, chainb, tc, parentOk, nvalsOk)
+
 Subsets(m) == (SUBSET (1..(m + 1))) \ {{}}
+
+\* non-adjacent, a validator sits in two or more slots of b's commit (every slot carries a signature
+\* valid for that slot): every key sequence of length 2..3 with a repetition, every placement
+\* relative to the validator's index in the trusted set, powers in every order.  The statement
+\* counts DISTINCT trusted validators.
+DecidePairDup ==
+    /\ phase = "new" /\ out.grp = "pair_dup"
+    /\ \E l \in 2..3 : \E ks \in [1..l -> 1..(out.m + 1)] : \E kinds \in [1..l -> {"ok", "nil"}] :
+          /\ \E i, j \in 1..l : i # j /\ ks[i] = ks[j]
+          /\ out' = PairCaseV("skipping_dup", out.m, out.pw,
+                              [i \in 1..l |-> Val(ks[i], IF ks[i] <= out.m THEN out.pw[ks[i]] ELSE 1)],
+                              kinds, 2, 1, "after", FALSE, FALSE)
+    /\ phase' = "done"
 
 \* adjacent: every combination of the linking clauses; the commit is all valid or all forged
 DecidePairAdjacent ==
@@ -235,13 +250,15 @@ DecideRangeEmpty ==
     /\ phase' = "done"
 
 ---------------------------------------------------------------------------
-AllGrps == {"pair_adj", "pair_skip", "pair_basic", "range", "range_empty"}
+AllGrps == {"pair_adj", "pair_skip", "pair_dup", "pair_basic", "range", "range_empty"}
 ASSUME Grps \subseteq AllGrps
 
 Init ==
     /\ phase = "new"
     /\ \/ \E m \in 1..MaxM : \E pw \in {f \in [1..m -> Palette] : Monotone(f, m)} :
           "pair_skip" \in Grps /\ out = [grp |-> "pair_skip", m |-> m, pw |-> pw]
+       \/ \E m \in 1..MaxM : \E pw \in [1..m -> Palette] :
+          "pair_dup" \in Grps /\ out = [grp |-> "pair_dup", m |-> m, pw |-> pw]
        \/ \E m \in 1..MaxMAdj : \E pw \in {f \in [1..m -> Palette] : Monotone(f, m)} :
           \E g \in {"pair_adj", "pair_basic"} \cap Grps : out = [grp |-> g, m |-> m, pw |-> pw]
        \/ \E aid \in {<<"A", 0, 1>>, <<"A", 0, 2>>} : \E f \in Ids :
@@ -249,7 +266,7 @@ Init ==
        \/ \E aid \in {<<"A", 0, 1>>, <<"A", 0, 2>>} :
           "range_empty" \in Grps /\ out = [grp |-> "range_empty", a |-> aid]
 
-Next == DecidePairAdjacent \/ DecidePairSkipping \/ DecidePairBasic \/ DecideRange \/ DecideRangeEmpty
+Next == DecidePairAdjacent \/ DecidePairSkipping \/ DecidePairDup \/ DecidePairBasic \/ DecideRange \/ DecideRangeEmpty
 Spec == Init /\ [][Next]_vars
 
 ---------------------------------------------------------------------------
